@@ -30,6 +30,8 @@ fn main() {
             let tier = arg(&args, "--tier").unwrap_or("quick".into());
             let out = arg(&args, "--out").expect("--out");
             let mut w = std::io::BufWriter::new(std::fs::File::create(&out).unwrap());
+            let mut wb = std::io::BufWriter::new(std::fs::File::create(format!("{out}.beh")).unwrap());
+            let idbase: u64 = arg(&args, "--idbase").and_then(|s| s.parse().ok()).unwrap_or(0);
             let mut lines = 0usize;
             let mut nscn = 0usize;
             for i in 0..count {
@@ -38,11 +40,17 @@ fn main() {
                 let beh = gens::generate(&prop, &tier, &facs, &mut rng, i);
                 let mut it = scen::Interp::new(&facs, sseed);
                 it.run(beh.as_array().unwrap());
-                let recs = it.finish(i as u64, &prop, "explore", &beh);
+                let (pname, gname) = match prop.strip_suffix("probe") {
+                    Some(p) => (p.to_string(), "probe"),
+                    None => (prop.clone(), "explore"),
+                };
+                let recs = it.finish(idbase + i as u64, &pname, gname, &beh);
                 if recs.len() <= 1 {
                     continue;
                 }
                 nscn += 1;
+                writeln!(wb, "{}", serde_json::json!({"id": idbase + i as u64, "prop": pname, "gen": gname,
+                    "sseed": sseed.to_string(), "cmds": beh})).unwrap();
                 for r in recs {
                     writeln!(w, "{}", r).unwrap();
                     lines += 1;
@@ -59,6 +67,10 @@ fn main() {
             let append = args.iter().any(|a| a == "--append");
             let f = std::fs::OpenOptions::new().create(true).write(true).append(append).truncate(!append).open(&out).unwrap();
             let mut w = std::io::BufWriter::new(f);
+            let fb = std::fs::OpenOptions::new().create(true).write(true).append(append).truncate(!append)
+                .open(format!("{out}.beh")).unwrap();
+            let mut wb = std::io::BufWriter::new(fb);
+            let genname = arg(&args, "--gen").unwrap_or("replay".into());
             let text = std::fs::read_to_string(&inp).unwrap();
             let mut nscn = 0usize;
             let mut lines = 0usize;
@@ -69,15 +81,21 @@ fn main() {
                 }
                 let b: Value = serde_json::from_str(line).expect("replay: bad json");
                 for r in 0..reps {
-                    let sseed = seed.wrapping_mul(0xD1B54A32D192ED03).wrapping_add((i * reps + r) as u64);
+                    let sseed = match b.get("sseed").and_then(|v| v.as_str()) {
+                        Some(x) if reps == 1 => x.parse().unwrap(),
+                        _ => seed.wrapping_mul(0xD1B54A32D192ED03).wrapping_add((i * reps + r) as u64),
+                    };
                     let mut it = scen::Interp::new(&facs, sseed);
                     it.run(b["cmds"].as_array().unwrap());
                     let prop = b["prop"].as_str().unwrap_or("").to_string();
-                    let recs = it.finish(idbase + (i * reps + r) as u64, &prop, "replay", &b["id"]);
+                    let sid = idbase + (i * reps + r) as u64;
+                    let recs = it.finish(sid, &prop, &genname, &b["id"]);
                     if recs.len() <= 1 {
                         continue;
                     }
                     nscn += 1;
+                    writeln!(wb, "{}", serde_json::json!({"id": sid, "prop": prop, "gen": genname,
+                        "sseed": sseed.to_string(), "cmds": b["cmds"], "beh": b.get("id")})).unwrap();
                     for rec in recs {
                         writeln!(w, "{}", rec).unwrap();
                         lines += 1;
